@@ -38,6 +38,9 @@ FIXES = [
     ("fixed-C11-leading-separators", "C11", "cook_failed", "optional leading separator"),
     ("fixed-C11-number-exponent-name", "C11", "", "number in SDL is one token"),
     ("fixed-C01-async-type-resolver", "C01", "", "coroutine type resolvers are awaited"),
+    ("fixed-C06-fragment-chain-work", "C06", "acceptance_work_explodes", "walks the fragment spread graph as a tree"),
+    ("fixed-C11-include-deprecated-null", "C11", "includeDeprecated=False", "includeDeprecated: null does not include"),
+    ("fixed-C14-excluded-root-field", "C14", "subscribe_raised", "root field is excluded instead of raising IndexError"),
     ("fixed-C06-subscription-root-repeated", "C06", "valid_request_refused", "single root field several times"),
 ]
 
